@@ -25,11 +25,15 @@ func (gc GeometryCollection) Len() int {
 // Points returns an iterator for the points in the receiver.
 func (gc GeometryCollection) Points() func() Point {
 	var i, j int
-	p := gc[0].Points()
+	var p func() Point
 	return func() Point {
-		if i == gc[j].Len() {
-			j++
-			i = 0
+		// Move to the next member that still has a vertex, skipping any
+		// number of empty members (and the case of an empty first member).
+		for p == nil || i == gc[j].Len() {
+			if p != nil {
+				j++
+				i = 0
+			}
 			p = gc[j].Points()
 		}
 		i++
